@@ -111,8 +111,29 @@ def ser(o, depth=0):
     return "<%s>" % tn
 
 
+def canon_addresses(j, table=None):
+    """Heap canonicalisation: integers of address size (>= 2**40; nothing in this library's value domain is that
+    large -- graph codes, class ids, counts and bit masks stay below 2**20) can only be id()s of objects, which
+    differ from run to run and carry no meaning beyond identity.  They are renamed by order of first appearance
+    in the (deterministically ordered) ser() tree, which keeps the equality pattern between them and makes the
+    fingerprint of a state that remembers an id() reproducible."""
+    if table is None:
+        table = {}
+    if isinstance(j, bool):
+        return j
+    if isinstance(j, int):
+        if abs(j) >= 1 << 40:
+            return {"addr": table.setdefault(j, len(table))}
+        return j
+    if isinstance(j, list):
+        return [canon_addresses(v, table) for v in j]
+    if isinstance(j, dict):
+        return {k: canon_addresses(v, table) for k, v in sorted(j.items())}
+    return j
+
+
 def sers(o):
-    return json.dumps(ser(o), sort_keys=True)
+    return json.dumps(canon_addresses(ser(o)), sort_keys=True)
 
 
 def strip_private(j):
